@@ -119,6 +119,19 @@ CLASSES = {
             "_execute_graph_impl": {"pure": False, "returns": OBJ("GraphState"), "raises": ["Exception"]},
         },
     },
+    "SyncRunner": {
+        "module": "hypergraph.runners.sync.runner", "file": "runners/sync/runner.py",
+        "attrs": {"_cache": ANY, "_executors": DICT(ANY, ANY), "default_max_iterations": INT},
+        "methods": {"_make_execute_node": {"pure": False, "returns": ANY, "raises": []}},
+    },
+    "AsyncRunner": {
+        "module": "hypergraph.runners.async_.runner", "file": "runners/async_/runner.py",
+        "attrs": {"_cache": ANY, "_executors": DICT(ANY, ANY), "default_max_iterations": INT},
+        "methods": {"_make_execute_node": {"pure": False, "returns": ANY, "raises": []},
+                    "_get_concurrency_limiter": {"pure": False, "returns": ANY, "raises": []},
+                    "_set_concurrency_limiter": {"pure": False, "returns": ANY, "raises": []},
+                    "_reset_concurrency_limiter": {"pure": False, "returns": NONE_T, "raises": []}},
+    },
     "AsyncRunnerTemplate": {
         "module": "hypergraph.runners._shared.template_async", "file": "runners/_shared/template_async.py",
         "attrs": {"default_max_iterations": INT, "capabilities": ANY, "supported_node_types": ANY},
@@ -164,7 +177,15 @@ ANY_METHODS.update({
     "exception": {"pure": False, "returns": NONE_T, "raises": []},
     "with_traceback": {"returns": ANY},
 })
-OPAQUE = {}
+OPAQUE = {
+    # graph reachability over networkx (assumed contract A4): total on graphs built by the Graph constructor
+    "_active_from_entrypoints": {"raises": [], "returns": SET(STR)},
+    # ContextVar accessors of the shared concurrency limiter (assumed contracts A4: contextvars get/set/reset are total)
+    "get_concurrency_limiter": {"raises": [], "returns": ANY},
+    "set_concurrency_limiter": {"raises": [], "returns": OBJ("Token")},
+    "reset_concurrency_limiter": {"raises": [], "returns": NONE_T},
+    "Semaphore": {"raises": [], "returns": ANY},
+}
 
 
 def _lib_deepcopy(ex, args, kwargs, s):
